@@ -74,17 +74,17 @@ pub fn shard_run(tier: &str, seed: u64, replay_case: Option<usize>, shard: Shard
     // configurations
     let mut configs: Vec<(Config, &'static str)> = vec![];
     for v in version_targets() {
-        for d in if thorough { day_targets() } else { vec![14, i64::MAX] } {
+        for d in if thorough { day_targets() } else { vec![0, 14, 15, i64::MAX] } {
             configs.push((Config { snapshot_days: d, snapshot_versions: v }, "sweep-versions"));
         }
     }
     for d in day_targets() {
-        for v in if thorough { version_targets() } else { vec![100, u32::MAX] } {
+        for v in if thorough { version_targets() } else { vec![0, 7, 100, u32::MAX] } {
             configs.push((Config { snapshot_days: d, snapshot_versions: v }, "sweep-days"));
         }
     }
     let mut rng = Rng::new(seed).fork(0xC12);
-    let n_rand = if thorough { 600 } else { 40 };
+    let n_rand = if thorough { 1500 } else { 200 };
     for _ in 0..n_rand {
         let v = match rng.below(4) {
             0 => rng.below(20) as u32,
